@@ -27,9 +27,30 @@ LRes(f, L0, R0) ==
 
 Fn(f)  == res = NoRes /\ rhs = <<>> /\ res' = LRes(f, lhs, rhs) /\ lhs' = <<>> /\ rhs' = <<>>
 Bin(f) == res = NoRes /\ res' = LRes(f, lhs, rhs) /\ lhs' = <<>> /\ rhs' = <<>>
+
+(* OPERANDS THAT READ THE FOCUS.  A node operand may be written as a RELATIVE path evaluated from the
+   context node (binding: child steps a, b, missing, a/b from the document element), bare or wrapped
+   in fn:not / fn:boolean / fn:empty / fn:exists.  Both operands of `and` / `or` are evaluated with
+   the SAME focus (XPath 2.0 section 3.6 with 2.1.2: the focus of an operand expression is the focus
+   of the enclosing expression), so the tables apply unchanged.
+   BinW(f, wl, wr):    wl(lhs) f wr(rhs)          NotBinW(f, wl, wr):    not(wl(lhs) f wr(rhs)) *)
+Wraps == {"id", "not", "boolean", "empty", "exists"}
+WrapOut(w, S) ==
+  CASE w = "id" -> EBVOf(S) [] w = "boolean" -> EBVOf(S) [] w = "not" -> NotOut(EBVOf(S))
+    [] w = "empty" -> B2O(S = <<>>) [] w = "exists" -> B2O(S # <<>>)
+RelOperand(S) == Len(S) <= 1 /\ IsNodeSet(S)
+BinWRes(f, wl, wr, L0, R0) ==
+  [c \in Cfgs |-> IF f = "and" THEN AndOut(WrapOut(wl, L0), WrapOut(wr, R0), IsCompat(c))
+                              ELSE OrOut(WrapOut(wl, L0), WrapOut(wr, R0), IsCompat(c))]
+BinW(f, wl, wr) == /\ res = NoRes /\ RelOperand(lhs) /\ RelOperand(rhs)
+                   /\ res' = BinWRes(f, wl, wr, lhs, rhs) /\ lhs' = <<>> /\ rhs' = <<>>
+NotBinW(f, wl, wr) == /\ res = NoRes /\ RelOperand(lhs) /\ RelOperand(rhs)
+                      /\ res' = [c \in Cfgs |-> {NotOut(o) : o \in BinWRes(f, wl, wr, lhs, rhs)[c]}]
+                      /\ lhs' = <<>> /\ rhs' = <<>>
 LNext == \/ \E v \in Items : AppendL(v) \/ AppendR(v)
          \/ \E f \in {"boolean", "not", "if"} : Fn(f)
          \/ \E f \in {"and", "or"} : Bin(f)
+         \/ \E f \in {"and", "or"}, wl \in Wraps, wr \in Wraps : BinW(f, wl, wr) \/ NotBinW(f, wl, wr)
 LSpec == Init /\ [][LNext]_vars
 
 ---------------------------------------------------------------------------
@@ -64,5 +85,17 @@ InvLogic ==
           /\ \A x \in LRes("or", lhs, rhs)[c] : AndOut(a, x, m) = {a}                       \* absorption
     /\ (a = "FALSE") => "FALSE" \in LRes("and", lhs, rhs)[c]
     /\ (a = "TRUE") => "TRUE" \in LRes("or", lhs, rhs)[c]
-LogicLaws == InvEBV /\ InvLogic
+Dual(f) == IF f = "and" THEN "or" ELSE "and"
+NegWrap(w) == CASE w = "id" -> "not" [] w = "boolean" -> "not" [] w = "not" -> "boolean"
+                [] w = "empty" -> "exists" [] w = "exists" -> "empty"
+InvRel ==                \* commutativity and De Morgan on focus-reading operands, in every configuration
+  (Building /\ RelOperand(lhs) /\ RelOperand(rhs)) =>
+     \A f \in {"and", "or"}, wl \in Wraps, wr \in Wraps, c \in Cfgs :
+        LET r == BinWRes(f, wl, wr, lhs, rhs)[c] IN
+        /\ r = BinWRes(f, wr, wl, rhs, lhs)[c]                                          \* P f Q = Q f P
+        /\ {NotOut(o) : o \in r} = BinWRes(Dual(f), NegWrap(wl), NegWrap(wr), lhs, rhs)[c]   \* not(P f Q) = not(P) f' not(Q)
+        /\ Cardinality(r) = 1 /\ r \subseteq {"TRUE", "FALSE"}                          \* no error, no choice
+        /\ WrapOut("empty", lhs) = NotOut(WrapOut("exists", lhs))
+        /\ WrapOut("exists", lhs) = WrapOut("boolean", lhs)                            \* on node sequences
+LogicLaws == InvEBV /\ InvLogic /\ InvRel
 =============================================================================
